@@ -114,10 +114,11 @@ func Iterate(obj Object, fn func(Object) bool) error {
 		}
 		for {
 			item, err := Next(iterator)
-			if err == StopIteration {
-				break
-			}
 			if err != nil {
+				// StopIteration raised as class or instance ends the iteration
+				if IsException(StopIteration, err) {
+					break
+				}
 				return err
 			}
 			if fn(item) {
